@@ -62,3 +62,15 @@ fn k_meta_static_types() {
     assert_eq!(s.get_type(), Meta::STATIC_STR);
     assert_eq!(s.unpack_strlen(), len as usize);
 }
+
+/// C03/C16 K-meta-root: the arena pointer tagged into a root node's meta word survives the
+/// round trip for every 8-aligned address, and the node is recognised as a root.
+#[kani::proof]
+fn k_meta_root_tag() {
+    let addr: u64 = kani::any();
+    kani::assume(addr % 8 == 0);
+    let m = Meta::new(addr | Meta::ROOT_NODE);
+    assert_eq!(m.get_kind(), Meta::ROOT_NODE);
+    assert_eq!(m.unpack_root() as usize as u64, addr);
+    assert!(!m.in_shared() || (addr & 7) != 0);
+}
